@@ -6,6 +6,7 @@ import (
 	"github.com/kklash/bitcoinlib/bhash"
 	"github.com/kklash/bitcoinlib/constants"
 	"github.com/kklash/bitcoinlib/taproot"
+	"github.com/kklash/bitcoinlib/varint"
 )
 
 var (
@@ -47,12 +48,14 @@ type MastLeaf struct {
 	Script  []byte
 }
 
-// Hash hashes the MastLeaf version number and push-data prepended script.
+// Hash hashes the MastLeaf version number and the script prefixed with its
+// length as a compact size (varint), as specified by BIP341.
 func (ms *MastLeaf) Hash() (hashed [32]byte) {
-	pushScript := PushData(ms.Script)
-	preimage := make([]byte, 1+len(pushScript))
-	preimage[0] = ms.Version
-	copy(preimage[1:], pushScript)
+	sizeBytes := varint.VarInt(len(ms.Script)).Bytes()
+	preimage := make([]byte, 0, 1+len(sizeBytes)+len(ms.Script))
+	preimage = append(preimage, ms.Version)
+	preimage = append(preimage, sizeBytes...)
+	preimage = append(preimage, ms.Script...)
 	copy(hashed[:], taprootLeafHasher(preimage))
 	return
 }
